@@ -118,4 +118,200 @@ pub(crate) mod b {
         assert!(merged.len() == 2, "two different lines stay two lines");
         println!("BOUNDED-CASES 1");
     }
+
+    fn fragments_of(text: &str) -> Vec<Fragment> {
+        let cb = CellBuffer::from(text);
+        let spans: Vec<Span> = Vec::<Span>::from(&cb);
+        spans.into_iter().flat_map(|sp| FragmentBuffer::from(sp).merge_fragment_spans()).map(|fs| fs.fragment).collect()
+    }
+
+    fn grid(rows: usize, cols: usize, puts: &[(usize, usize, char)]) -> String {
+        let mut g = vec![vec![' '; cols]; rows];
+        for (r, c, ch) in puts {
+            g[*r][*c] = *ch;
+        }
+        g.into_iter().map(|r| r.into_iter().collect::<String>().trim_end().to_string()).collect::<Vec<_>>().join("\n") + "\n"
+    }
+
+    /// C14 (a): arrowheads in all eight directions, line lengths 1..4, three offsets
+    #[test]
+    fn bounded_arrowheads() {
+        // (name, step of the line away from the arrow head (dcol, drow), line char, arrow chars)
+        let dirs: [(&str, (i32, i32), char, &[char]); 8] = [
+            ("right", (-1, 0), '-', &['>']),
+            ("left", (1, 0), '-', &['<']),
+            ("up", (0, 1), '|', &['^']),
+            ("down", (0, -1), '|', &['v', 'V']),
+            ("up_left", (1, 1), '\\', &['^']),
+            ("up_right", (-1, 1), '/', &['^']),
+            ("down_left", (1, -1), '/', &['v', 'V']),
+            ("down_right", (-1, -1), '\\', &['v', 'V']),
+        ];
+        let mut n = 0u64;
+        for (name, step, lch, heads) in dirs {
+            for head in heads {
+                for len in 1..=4i32 {
+                    for (ox, oy) in [(6i32, 6i32), (9, 7), (20, 11)] {
+                        let mut puts = vec![(oy as usize, ox as usize, *head)];
+                        for k in 1..=len {
+                            puts.push(((oy + step.1 * k) as usize, (ox + step.0 * k) as usize, lch));
+                        }
+                        let text = grid(24, 40, &puts);
+                        let frags = fragments_of(&text);
+                        let polys: Vec<&crate::fragment::Polygon> = frags.iter().filter_map(|f| f.as_polygon()).collect();
+                        let lines: Vec<&crate::fragment::Line> = frags.iter().filter_map(|f| f.as_line()).collect();
+                        let texts = frags.iter().filter(|f| f.is_cell_text() || f.is_text()).count();
+                        let mut why = String::new();
+                        let ok = (|| {
+                            if polys.len() != 1 || lines.is_empty() || texts != 0 {
+                                why = format!("{} polygons, {} lines, {} texts", polys.len(), lines.len(), texts);
+                                return false;
+                            }
+                            let p = polys[0];
+                            if !p.is_filled || p.points.len() != 3 {
+                                why = "arrow head must be one filled triangle".into();
+                                return false;
+                            }
+                            // the line adjoining the head: the longest one
+                            let l = lines.iter().max_by(|a, b| a.start.distance(&a.end).partial_cmp(&b.start.distance(&b.end)).unwrap()).unwrap();
+                            // direction of the arrow in drawing units (a cell is 1 x 2)
+                            let (ux, uy) = (-(step.0 as f32), -(step.1 as f32) * 2.0);
+                            let proj = |q: Point| q.x * ux + q.y * uy;
+                            let (near, far) = if proj(l.start) > proj(l.end) { (l.start, l.end) } else { (l.end, l.start) };
+                            let cross = |q: Point| (near.x - far.x) * (q.y - far.y) - (near.y - far.y) * (q.x - far.x);
+                            let mut pts = p.points.clone();
+                            pts.sort_by(|a, b| proj(*b).partial_cmp(&proj(*a)).unwrap());
+                            let (tip, b1, b2) = (pts[0], pts[1], pts[2]);
+                            if cross(tip).abs() > 1e-3 {
+                                why = format!("tip {} is off the axis of the line {} - {}", tip, far, near);
+                                return false;
+                            }
+                            if proj(tip) < proj(near) - 1e-3 || proj(tip) <= proj(b1) || proj(tip) <= proj(b2) {
+                                why = format!("tip {} does not lie beyond the end {} of the line, pointing away from it", tip, near);
+                                return false;
+                            }
+                            if !(cross(b1) * cross(b2) < 0.0) {
+                                why = format!("base {} , {} does not straddle the axis", b1, b2);
+                                return false;
+                            }
+                            // the head sits in the arrow character's cell
+                            let cell = Cell::new(ox, oy);
+                            let (lo, hi) = (cell.top_left_most(), cell.bottom_right_most());
+                            if !(tip.x >= lo.x - 0.5 && tip.x <= hi.x + 0.5 && tip.y >= lo.y - 1.0 && tip.y <= hi.y + 1.0) {
+                                why = format!("tip {} is not at the arrow character's cell {}", tip, cell);
+                                return false;
+                            }
+                            true
+                        })();
+                        if !ok {
+                            println!("BOUNDED-WITNESS arrow {} head {:?} length {} at ({},{}): {}\n{}", name, head, len, ox, oy, why, text.trim_matches('\n'));
+                            panic!("arrow heads sit and point where the text says");
+                        }
+                        n += 1;
+                    }
+                }
+            }
+        }
+        println!("BOUNDED-CASES {}", n);
+    }
+
+    /// C14 (b): bullets * o O attached to a horizontal or vertical line become a circle marker of the
+    /// documented kind whose marked end is the centre of the bullet's cell; the bullet is not shown as text
+    #[test]
+    fn bounded_bullets() {
+        use crate::fragment::Marker;
+        let kinds = [('*', Marker::Circle), ('o', Marker::OpenCircle), ('O', Marker::BigOpenCircle)];
+        let mut n = 0u64;
+        for (ch, marker) in kinds {
+            for (step, lch) in [((1i32, 0i32), '-'), ((-1, 0), '-'), ((0, 1), '|'), ((0, -1), '|')] {
+                for len in 2..=4i32 {
+                    for (ox, oy) in [(6i32, 6i32), (15, 9)] {
+                        let mut puts = vec![(oy as usize, ox as usize, ch)];
+                        for k in 1..=len {
+                            puts.push(((oy + step.1 * k) as usize, (ox + step.0 * k) as usize, lch));
+                        }
+                        let text = grid(24, 40, &puts);
+                        let frags = fragments_of(&text);
+                        let centre = Cell::new(ox, oy).m();
+                        let marked: Vec<&crate::fragment::MarkerLine> = frags.iter().filter_map(|f| match f { Fragment::MarkerLine(m) => Some(m), _ => None }).collect();
+                        let texts = frags.iter().filter(|f| f.is_cell_text() || f.is_text()).count();
+                        let ok = marked.len() == 1
+                            && marked[0].end_marker == Some(marker.clone())
+                            && marked[0].start_marker.is_none()
+                            && marked[0].line.end.x == centre.x && marked[0].line.end.y == centre.y
+                            && texts == 0
+                            && frags.iter().all(|f| f.as_circle().is_none());
+                        if !ok {
+                            println!("BOUNDED-WITNESS bullet {:?} with line step {:?} length {} at ({},{}): fragments {:?}", ch, step, len, ox, oy, frags);
+                            panic!("bullets become circle markers at the centre of their cell");
+                        }
+                        n += 1;
+                    }
+                }
+            }
+        }
+        println!("BOUNDED-CASES {}", n);
+    }
+
+    /// C14 (c): rounded corners of an outline (a stub keeps it from being endorsed as a rect): four arcs whose
+    /// end points coincide with ends of the adjoining lines and whose centre lies on the inner side
+    #[test]
+    fn bounded_rounded_corners() {
+        let styles: [[char; 4]; 2] = [['.', '.', '\'', '\''], [',', '.', '`', '\'']];
+        let mut n = 0u64;
+        for c in styles {
+            for w in 1..=8usize {
+                for h in 1..=5usize {
+                    for (ox, oy) in [(2usize, 1usize), (11, 4)] {
+                        let mut puts = vec![(oy, ox, c[0]), (oy, ox + w + 1, c[1]), (oy + h + 1, ox, c[2]), (oy + h + 1, ox + w + 1, c[3])];
+                        for k in 1..=w {
+                            puts.push((oy, ox + k, '-'));
+                            puts.push((oy + h + 1, ox + k, '-'));
+                        }
+                        for k in 1..=h {
+                            puts.push((oy + k, ox, '|'));
+                            puts.push((oy + k, ox + w + 1, '|'));
+                        }
+                        // the stub: a line leaving the top right corner region, attached to the right side
+                        puts.push((oy + 1, ox + w + 2, '-'));
+                        puts.push((oy + 1, ox + w + 3, '-'));
+                        let text = grid(24, 40, &puts);
+                        let frags = fragments_of(&text);
+                        let arcs: Vec<&crate::fragment::Arc> = frags.iter().filter_map(|f| f.as_arc()).collect();
+                        let lines: Vec<&crate::fragment::Line> = frags.iter().filter_map(|f| f.as_line()).collect();
+                        let (x0, y0) = (ox as f32 + 0.5, oy as f32 * 2.0 + 1.0);
+                        let (x1, y1) = ((ox + w + 1) as f32 + 0.5, (oy + h + 1) as f32 * 2.0 + 1.0);
+                        let mut why = String::new();
+                        let ok = (|| {
+                            if arcs.len() != 4 {
+                                why = format!("{} arcs", arcs.len());
+                                return false;
+                            }
+                            for a in &arcs {
+                                for e in [a.start, a.end] {
+                                    if !lines.iter().any(|l| l.has_endpoint(e)) {
+                                        why = format!("arc end {} meets no line end", e);
+                                        return false;
+                                    }
+                                }
+                                let ctr = a.center();
+                                if !(ctr.x > x0 - 1e-3 && ctr.x < x1 + 1e-3 && ctr.y > y0 - 1e-3 && ctr.y < y1 + 1e-3)
+                                    || (ctr.x - x0).abs() < 1e-3 && (ctr.y - y0).abs() < 1e-3 {
+                                    why = format!("centre {} of arc {} is not on the inner side of the outline ({},{})-({},{})", ctr, a, x0, y0, x1, y1);
+                                    return false;
+                                }
+                            }
+                            true
+                        })();
+                        if !ok {
+                            println!("BOUNDED-WITNESS rounded outline {:?} {}x{} at ({},{}): {}\n{}", c, w, h, ox, oy, why, text.trim_matches('\n'));
+                            panic!("rounded corners are continuous and bulge outward");
+                        }
+                        n += 1;
+                    }
+                }
+            }
+        }
+        println!("BOUNDED-CASES {}", n);
+    }
 }
